@@ -92,6 +92,12 @@ append_derivation(CPPType *base, CPPVisibility vis, bool is_virtual) {
       def = base->as_typedef_type();
     }
 
+    if (base->as_struct_type() != nullptr &&
+        is_base_of(base->as_struct_type())) {
+      // A class cannot derive from itself or from one of its own descendants.
+      return;
+    }
+
     if (vis == V_unknown) {
       // Default visibility: it depends on the class-key of the derived class,
       // not on that of the base.
